@@ -43,10 +43,11 @@ BADRESP = resp(st="BAD", hs=(), bd="none")
 
 
 def msgdef(prefix, msgs):
-    """TLA+ function from short names (q1, q2, ... / s1, ...) to the message records."""
+    """TLA+ tuple of the message records; a message's name is its index (1..n).  (A tuple literal, not a chain of
+    :> and @@: TLC re-evaluates the definition on every lookup, and the chain costs O(n^2) each time.)"""
     if not msgs:
         raise ValueError("empty message set")
-    return "(" + " @@ ".join('"%s%d" :> %s' % (prefix, i + 1, tla(m)) for i, m in enumerate(msgs)) + ")"
+    return "<<" + ",\n  ".join(tla(m) for m in msgs) + ">>"
 
 
 def req_lattice():
@@ -110,8 +111,8 @@ CTRL_RESPS = [
 ALL_CLOSERS = '{"cclose","cabort","ow","orw"}'
 
 
-def consts(reqs, resps, cap, nreq, nresp, auth, sync, emit, closers=ALL_CLOSERS, constraint=""):
-    return dict(QueueCap=cap, ReqDef=msgdef("q", reqs), RespDef=msgdef("s", resps), MaxReq=nreq, MaxResp=nresp,
+def consts(reqs, resps, cap, nreq, nresp, auth, sync, emit, closers=ALL_CLOSERS, constraint="", lattice=False):
+    return dict(Lattice="TRUE" if lattice else "FALSE", QueueCap=cap, ReqDef=msgdef("q", reqs), RespDef=msgdef("s", resps), MaxReq=nreq, MaxResp=nresp,
                 AuthModes=auth, Closers=closers, Sync="TRUE" if sync else "FALSE",
                 EMIT="ACTION_CONSTRAINT Emit" if emit else "", CONSTRAINT=constraint)
 
@@ -182,15 +183,15 @@ def run(tier, seed, replay):
                      dict(max_len=6 * cap + 60)))
 
     # (3) the message lattice, one exchange per message: requests (authentication off: every credential class is
-    #     forwardable and must be stripped; on: refused unless good, then the plain follow-up "q1" is forwarded) and
-    #     responses (to GET and to HEAD; an interim one is followed by the plain final response "s1")
+    #     forwardable and must be stripped; on: refused unless good, then the plain follow-up (message 1) is forwarded) and
+    #     responses (to GET and to HEAD; an interim one is followed by the plain final response (message 1))
     nr, ns = (len(rl), len(sl)) if big else (90, 80)
     na = len(rl) // 2 if big else 50
     jobs.append(("lattice_req", consts([PLAIN_REQ] + rl[:nr], [PLAIN_RESP], cap, 1, 1, "{FALSE}", True, True, closers=lat), "graph", dict(max_len=30)))
     jobs.append(("lattice_req_auth", consts([PLAIN_REQ] + rl[-na:], [PLAIN_RESP], cap, 2, 1, "{TRUE}", True, True, closers=lat,
-                                            constraint="CONSTRAINT LatticeOK"), "graph", dict(max_len=30)))
+                                            lattice=True), "graph", dict(max_len=30)))
     jobs.append(("lattice_resp", consts([PLAIN_REQ, req(m="HEAD", hs=("ua",))], [PLAIN_RESP] + sl[:ns], cap, 1, 2, "{FALSE}", True, True, closers=lat,
-                                        constraint="CONSTRAINT LatticeOK"), "graph", dict(max_len=30)))
+                                        lattice=True), "graph", dict(max_len=30)))
 
     # (4) simulation with seeded random message sets from the whole lattice: "mixed" (every kind of message and
     #     close, short connections) and "long" (nothing that ends the connection: pipelines of up to 20 requests)
